@@ -1,4 +1,5 @@
-SPECIFICATION Spec
+INIT InitFamily
+NEXT Next
 CONSTANTS
   Wide = FALSE
 INVARIANT NumLaws
